@@ -10,14 +10,15 @@ from .hash_mutants import MUT_C15
 
 PROP = "C15"
 EXPLANATION = (
-    "Partial. Not decided: the hasher's byte arithmetic for all sizes. Decided: C15.1 the padding entry is appended "
-    "directly after its file's entry, only when the gap is non-zero, and is marked attr='p' with the gap as length; "
-    "C15.2 gap arithmetic: the expression that defines the padding length is evaluated symbolically over the four cells "
-    "of S = q*P + r (q = 0 | q >= 1) x (r = 0 | 0 < r < P) - an exhaustive abstract domain for expressions built from "
-    "S, P, %, -, comparisons with P and conditionals - and must give 0 when r = 0 (the empty file included) and P - r "
-    "otherwise; C15.3 flag agreement: the hasher receives the same align value that selects the padded listing, the "
-    "single-file branch (only 'length' recorded) forces it off, and the hasher's align arm zero-extends a short piece to "
-    "exactly piece_length (linear form) and returns its SHA-1 without reading the next file.")
+    "Partial. Not decided: the hasher's byte arithmetic for all sizes. Decided: C15.1 padding entries are marked attr='p', go to the same "
+    "list as the file entries and are appended only with the align switch on; C15.2 one iteration of the listing loop is simulated, with the "
+    "switch on, over the four cells of S = q*P + r (q = 0 | q >= 1) x (r = 0 | 0 < r < P) - an exhaustive abstract domain for integer-linear "
+    "expressions over S and P with %, //, comparisons and conditionals - and must list the file with length S followed by a padding entry of "
+    "length P - r exactly when r > 0 (whichever way the loop spells gap and guard); C15.3 flag agreement by worlds: for a directory the hasher "
+    "receives self.align, for a single file (only 'length' recorded) it receives False; and what the v1 hasher hashes after a short, non-empty "
+    "read with the switch on is computed as a symbolic byte sequence (bytes read, n zero bytes, stale bytes of a reused buffer) through extend / "
+    "+ / ljust / sha1().update() / a whole fresh or object-held buffer, and must be the bytes read followed by piece_length - n zero bytes, "
+    "without the next file being opened.")
 RULE_TEXT = "one obligation per cell of the gap arithmetic, per shape fact of the listing and of the hasher's align arm"
 
 
